@@ -139,9 +139,16 @@ pub fn generate(rng: &mut Rng, max_len: usize, max_cases: usize, allow_task: boo
         for (k, (op, res)) in ops.iter().enumerate() {
             let (x, fx) = operand(rng, &s1, &mut decls, &format!("x{k}"));
             let (y, fy) = operand(rng, &s2, &mut decls, &format!("y{k}"));
-            forms.push(format!("{fx}{op}{fy}"));
-            parts.push(format!("({x} {op} {y})"));
-            want.push_str(b(*res));
+            if rng.chance(1, 3) {
+                // the same comparison under a prefix `not`
+                forms.push(format!("not {fx}{op}{fy}"));
+                parts.push(format!("(not ({x} {op} {y}))"));
+                want.push_str(b(!*res));
+            } else {
+                forms.push(format!("{fx}{op}{fy}"));
+                parts.push(format!("({x} {op} {y})"));
+                want.push_str(b(*res));
+            }
         }
         let (x, _) = operand(rng, &s1, &mut decls, "xc");
         let (y, _) = operand(rng, &s2, &mut decls, "yc");
